@@ -284,7 +284,7 @@ func specB2I(b bool) int {
 	return 0
 }
 
-// @ bounded standinTrieEmitter2 pre=pre_standinTrie2 props=C01 bound=1-subscriber,filter-depth-2,channel-depth-2,emitter-mode
+// @ bounded standinTrieEmitter2 pre=pre_standinTrie2 props=C01,C02 bound=1-subscriber,filter-depth-2,channel-depth-2,emitter-mode
 func pre_standinTrie2(c, a, b, q0, q1, q2 uint32) bool {
 	return specPlainChannel(c, q0, q1, q2) && a != share
 }
@@ -386,7 +386,7 @@ func post_Contains(s *Subscribers, value Subscriber, res0 bool) bool {
 
 // two subscribers, one filter a level-wise prefix of the other: removing the deeper one must not detach the
 // node that still holds the shallower one (the cascade in orphan looks at the PARENT's subscribers)
-// @ bounded standinTriePrefixPair pre=pre_standinTriePair props=C01 bound=2-subscribers,filters-[c,a]-and-[c,a,b],emitter-mode
+// @ bounded standinTriePrefixPair pre=pre_standinTriePair props=C01,C02,C08 bound=2-subscribers,filters-[c,a]-and-[c,a,b],emitter-mode
 func pre_standinTriePair(c, a, b uint32, id1, id2 string) bool {
 	return c != wildcard && c != multiWildcard && a != share && a != wildcard && a != multiWildcard && b != wildcard && b != multiWildcard &&
 		hash.OfString(id1) != hash.OfString(id2)
